@@ -242,6 +242,42 @@ func VfC13_ReadBack() {
 	}
 }
 
+// VfC13_PoolIndependence: the pooled buffers the filter works with are private to one call: a
+// value that went through the filter keeps its bytes while other values are compressed and
+// decompressed afterwards (the pool hands the same buffer out again) - a write that is resent
+// after a redirection carries exactly what the filter produced for it.
+func VfC13_PoolIndependence() {
+	vfInstallStub()
+	nd.PoolReuse(true)
+	threshold := uint32(nd.IntRange("threshold", 1, 24))
+	cfg := vfCompressCfg(true, threshold)
+	f := newCompressFilter(cfg)
+	v1 := nd.Bytes("v1", vfLens[nd.Concrete(nd.IntRange("vlen1", 2, 4))])
+	v2 := nd.Bytes("v2", vfLens[nd.Concrete(nd.IntRange("vlen2", 2, 4))])
+	// the property speaks of values that do not themselves start with the compression header
+	nd.Assume(!(v1[0] == '(' && v1[1] == 'P' && v1[2] == '$'))
+	nd.Assume(!(v2[0] == '(' && v2[1] == 'P' && v2[2] == '$'))
+	o1, o2 := append([]byte(nil), v1...), append([]byte(nil), v2...)
+	w1 := newSimpleRequest(newArray(*newBulkString("set"), *newBulkString("k1"), *newBulkBytes(v1)))
+	w2 := newSimpleRequest(newArray(*newBulkString("set"), *newBulkString("k2"), *newBulkBytes(v2)))
+	nd.PanicLabel("compress-filter")
+	f.Do("set", w1)
+	after1 := append([]byte(nil), w1.Body().Array[2].Text...)
+	nd.Assert(vfBytesEq(after1, o1) || vfIsFrameOf(after1, o1), "the first value is left alone or framed")
+	f.Do("set", w2) // other traffic on the same filter: compresses into the recycled buffer
+	if nd.Bool("a-reply-is-decompressed-too") {
+		rd := newSimpleRequest(newArray(*newBulkString("get"), *newBulkString("k2")))
+		f.Do("get", rd)
+		rd.SetResponse(newBulkBytes(append([]byte(nil), w2.Body().Array[2].Text...)))
+		nd.Assert(vfBytesEq(rd.Response().Text, o2), "the second value reads back")
+	}
+	now1 := w1.Body().Array[2].Text
+	nd.Assert(vfBytesEq(now1, after1), "a filtered value keeps its bytes while other values go through the filter (pooled buffers are not shared between requests)")
+	if !vfBytesEq(after1, o1) {
+		nd.Cover("first-was-compressed")
+	}
+}
+
 // VfC13_Decompress: Decompress on arbitrary reply values: text that is not a frame the compressor
 // produced (wrong magic, unknown algorithm byte, corrupt stream, short header) is left untouched;
 // arrays are handled element-wise; never a crash.
